@@ -73,11 +73,18 @@ theorem splitOn_lines : ∀ (ls : List Bytes), (∀ l ∈ ls, 10 ∉ l) →
 theorem parseDigits_snoc (a : Bytes) (c : Nat) : parseDigits (a ++ [c]) = parseDigits a * 10 + (c - 48) := by
   simp [parseDigits, List.foldl_append]
 
-theorem decDigits_spec (n : Nat) : parseDigits (decDigits n) = n ∧ (decDigits n).all isDigit = true ∧
-    ∃ c cs, decDigits n = c :: cs ∧ isDigit c = true := by
-  induction n using Nat.strongRecOn with
-  | _ n ih =>
-    rw [decDigits]
+theorem decDigitsF_spec : ∀ (f n : Nat), n ≤ f → parseDigits (decDigitsF f n) = n ∧
+    (decDigitsF f n).all isDigit = true ∧ ∃ c cs, decDigitsF f n = c :: cs ∧ isDigit c = true := by
+  intro f
+  induction f with
+  | zero =>
+    intro n hn
+    have : n = 0 := by omega
+    subst this
+    exact ⟨by simp [decDigitsF, parseDigits], by simp [decDigitsF, isDigit], 48, [], rfl, by simp [isDigit]⟩
+  | succ f ih =>
+    intro n hn
+    rw [decDigitsF]
     split
     · next hlt =>
       refine ⟨by simp [parseDigits], by simp [isDigit]; omega, 48 + n, [], rfl, by simp [isDigit]; omega⟩
@@ -86,6 +93,9 @@ theorem decDigits_spec (n : Nat) : parseDigits (decDigits n) = n ∧ (decDigits 
       refine ⟨?_, ?_, c, cs ++ [48 + n % 10], by rw [h3]; rfl, h4⟩
       · rw [parseDigits_snoc, h1]; omega
       · rw [List.all_append, h2]; simp [isDigit]; omega
+
+theorem decDigits_spec (n : Nat) : parseDigits (decDigits n) = n ∧ (decDigits n).all isDigit = true ∧
+    ∃ c cs, decDigits n = c :: cs ∧ isDigit c = true := decDigitsF_spec n n (Nat.le_refl n)
 
 theorem atoi_dec (i : Int) : atoi (dec i) = some i := by
   obtain ⟨h1, h2, c, cs, h3, h4⟩ := decDigits_spec i.natAbs
